@@ -42,7 +42,7 @@ META = {
              'contributes; distinct = digest of (input, chunk count, curve)'),
     'assumptions': ['the extension is built from the working tree\'s Debyer.pyx with Cython + gcc -fopenmp into /verif/build (the repository ships no usable binary)',
                     'libgomp\'s omp_set_num_threads sets the team size of the following parallel region',
-                    'float32 arithmetic inside the extension: comparison tolerance 2e-5 * (1 + number of contributing pairs) / k-independent scale',
+                    'float32 arithmetic inside the extension: absolute comparison tolerance 1e-5 + 3e-7 * (number of contributing ordered pairs), about 15x the measured deviation',
                     'the interleaving of threads within one run is not controlled (no OpenMP scheduler to own); repetitions sample it'],
 }
 
@@ -143,7 +143,8 @@ def direct(p1, p2, m1, m2, box, selfo, k):
     return out / F, npairs
 
 
-BOXES = {'large': [1000.0, 1000.0, 1000.0], 'small': [3.1, 4.3, 2.7]}       # 'small': most pairs need the minimum image
+BOXES = {'large': [1000.0, 1000.0, 1000.0], 'small': [3.1, 4.3, 2.7],       # 'small': most pairs need the minimum image
+         'npt': [3.1, 4.3, 2.7]}                                            # 'npt': the box changes from frame to frame
 
 
 def tags(kind, **kw):
@@ -161,13 +162,15 @@ def case_input(rec, c, mod=None):
             return
     n, part, frames, boxname, split = c['n'], c['molecules'], c['frames'], c['box'], c['split']
     box = np.repeat([BOXES[boxname]], frames, axis=0)
+    if boxname == 'npt':
+        box = box * (1.0 + 0.23 * np.arange(frames)).reshape(-1, 1) * np.array([1.0, 0.9, 1.1]) ** np.arange(frames).reshape(-1, 1)
     pos = positions(n, frames, box, c.get('salt', 0))
     mol = np.array(part, dtype=np.int64)
     order = c.get('order')
     if order is not None:
         pos = pos[:, order, :]
         mol = mol[order]
-    dom = pyPRISM.Domain(length=LENGTH, dk=DK)
+    dom = pyPRISM.Domain(length=c.get('length', LENGTH), dk=c.get('dk', DK))
     k = np.asarray(dom.k)
     if split is None:
         p1 = p2 = pos
@@ -177,7 +180,7 @@ def case_input(rec, c, mod=None):
         p1, p2, m1, m2, selfo = pos[:, :split], pos[:, split:], mol[:split], mol[split:], False
     want, npairs = direct(p1, p2, m1, m2, box, selfo, k)
     rec.state()
-    tol = 2e-5 * (1.0 + npairs)
+    tol = 1e-5 + 3e-7 * npairs            # float32 inside the extension: measured <= 2e-6 for 156 ordered pairs on 8192 bins
     chunks = c.get('chunks') or (list(range(1, n + 3)) + [16])
     snap = [a.copy() for a in (p1, p2, m1, m2, box)]
     for nc in chunks:
@@ -210,7 +213,7 @@ def case_input(rec, c, mod=None):
                              tags('nondeterministic'))
                     return
         if npairs:
-            rec.outcome(core.digest([n, part, frames, boxname, split, order, nc, first], 5))
+            rec.outcome(core.digest([n, part, frames, boxname, split, order, nc, c.get('length'), first[:16]], 5))
     if not all(np.array_equal(a, b) for a, b in zip((p1, p2, m1, m2, box), snap)):
         rec.fail(c, 'Debyer.calculate modified one of its input arrays', tags('purity'))
     rec.trace()
@@ -291,6 +294,17 @@ def run(rec, tier, seed):
                 cases.append({'n': n, 'molecules': part, 'frames': frames, 'box': boxname, 'split': None})
                 for split in range(1, n):
                     cases.append({'n': n, 'molecules': part, 'frames': frames, 'box': boxname, 'split': split})
+    # a box that changes from frame to frame (constant-pressure trajectory), 2 and 3 frames
+    for n in (2, 3, 4):
+        for part in partitions(n):
+            for frames in (2, 3):
+                cases.append({'n': n, 'molecules': part, 'frames': frames, 'box': 'npt', 'split': None, 'chunks': [1, 2, 3]})
+                cases.append({'n': n, 'molecules': part, 'frames': frames, 'box': 'npt', 'split': 1, 'chunks': [1, 2, 3]})
+    # long Fourier grids (thousands of bins, k up to 40..80): the wavenumber of every bin is dk*(q+1) to rounding
+    for L, dk in (((2048, 0.02),) if quick else ((2048, 0.02), (4096, 0.01), (8192, 0.01))):
+        for n, part in ((5, [0, 0, 0, 0, 0]), (13, [0] * 13), (13, [i // 7 for i in range(13)])):
+            cases.append({'n': n, 'molecules': part, 'frames': 1, 'box': 'small', 'split': None, 'chunks': [1, 3], 'length': L, 'dk': dk})
+            cases.append({'n': n, 'molecules': part, 'frames': 1, 'box': 'large', 'split': n // 2, 'chunks': [2], 'length': L, 'dk': dk})
     # every order of the sites (self term), n <= 4
     for n in (2, 3, 4):
         for part in partitions(n):
@@ -334,7 +348,8 @@ def run(rec, tier, seed):
         rec.fail(broken[2], broken[1], tags(broken[0]))
     rec.note('alphabets', {'sites': [1, nmax], 'molecule_partitions': 'all set partitions (every third for 6 sites)', 'boxes': BOXES,
                            'chunk_counts': '1..N+2 and 16', 'openmp_team_sizes': TEAMS, 'repetitions': REPS, 'site_orders': 'all permutations for N <= 4',
-                           'domain': {'length': LENGTH, 'dk': DK}})
+                           'domain': {'length': LENGTH, 'dk': DK}, 'long_domains': '(2048, 0.02) quick; + (4096, 0.01), (8192, 0.01) thorough',
+                           'per_frame_boxes': 'npt: box scaled anisotropically from frame to frame (2 and 3 frames)'})
     rec.note('not_enumerated', 'the interleaving of OpenMP threads inside one run')
     rec.sample({'n': 4, 'molecules': [0, 1, 0, 1], 'frames': 1, 'box': 'small', 'split': None})
     rec.sample({'n': 5, 'molecules': [0, 0, 1, 1, 0], 'frames': 2, 'box': 'large', 'split': 2})
